@@ -603,6 +603,7 @@ func (r *ChunkReader) resolveSeekPosition() error {
 	// seekPosition.
 	cBias := int64(0)
 	dBias := int64(0)
+	nodeCOffset := r.rootNodeCOffset
 	for {
 		i := r.currNode.findChunkContaining(r.seekPosition, dBias)
 		if r.currNode.isLeaf(i) {
@@ -624,11 +625,21 @@ func (r *ChunkReader) resolveSeekPosition() error {
 		childDBias := r.currNode.dOff(i, dBias)
 		childDSize := r.currNode.dSize(i)
 
+		// In order to rule out infinite loops, the child's Branch COffset must
+		// be less than the parent's Branch COffset or the child's DPtrMax
+		// (which loadAndValidate checks is childDSize) must be less than the
+		// parent's DPtrMax.
+		if (childCOffset >= nodeCOffset) && (childDSize >= r.currNode.dPtrMax()) {
+			r.err = errInvalidIndexNode
+			return r.err
+		}
+
 		if err := r.loadAndValidate(childCOffset,
 			parentCodec, parentCodecHasMixBit, parentVersion, parentCOffMax,
 			childCBias, childDSize); err != nil {
 			return err
 		}
+		nodeCOffset = childCOffset
 
 		cBias = childCBias
 		dBias = childDBias
